@@ -25,6 +25,8 @@ mod selection_help;
 mod sorters;
 mod splitter;
 mod variables_extractor;
+#[cfg(feature = "verif-hooks")]
+pub mod verif;
 
 use additional_help::display_additional_help;
 use clap::Parser;
@@ -258,36 +260,76 @@ impl<S: Read> Master<S> {
             None => {}
         }
         let mut process = self.cli.output_options.get_processor(self.stdout.clone())?;
+        #[cfg(feature = "verif-hooks")]
+        {
+            process = verif::wrap("printer", process);
+        }
         if let Some(group_by) = &self.cli.group_by {
             if let Some(group_by) = group_by {
                 let group_by = Grouper::from_str(group_by)?;
                 process = group_by.create_process(process);
+                #[cfg(feature = "verif-hooks")]
+                {
+                    process = verif::wrap("grouper", process);
+                }
             } else {
                 process = Merger::create_process(process);
+                #[cfg(feature = "verif-hooks")]
+                {
+                    process = verif::wrap("merger", process);
+                }
             }
         }
         process = Limiter::create_process(self.cli.skip, self.cli.take, process);
+        #[cfg(feature = "verif-hooks")]
+        {
+            process = verif::wrap("limiter", process);
+        }
         for sorter in &self.cli.sort_by {
             let sorter = Sorter::from_str(sorter)?;
             let max_size = self.cli.take.map(|take| (self.cli.skip + take) as usize);
             process = sorter.create_processor(process, max_size);
+            #[cfg(feature = "verif-hooks")]
+            {
+                process = verif::wrap("sorter", process);
+            }
         }
         if self.cli.unique {
             process = Uniquness::create_process(process);
+            #[cfg(feature = "verif-hooks")]
+            {
+                process = verif::wrap("unique", process);
+            }
         }
         for selection in self.cli.choose.iter().rev() {
             let selection = Selection::from_str(selection)?;
             process = selection.create_process(process);
+            #[cfg(feature = "verif-hooks")]
+            {
+                process = verif::wrap("select", process);
+            }
         }
         if let Some(filter) = &self.cli.filter {
             let filter = Filter::from_str(filter)?;
             process = filter.create_process(process);
+            #[cfg(feature = "verif-hooks")]
+            {
+                process = verif::wrap("filter", process);
+            }
         }
         if let Some(splitter) = &self.cli.break_by {
             let splitter = Splitter::from_str(splitter)?;
             process = splitter.create_process(process);
+            #[cfg(feature = "verif-hooks")]
+            {
+                process = verif::wrap("splitter", process);
+            }
         }
         process = self.cli.set.create_process(process)?;
+        #[cfg(feature = "verif-hooks")]
+        {
+            process = verif::wrap("presets", process);
+        }
         process.start(Titles::default())?;
 
         let mut index = 0;
@@ -300,6 +342,8 @@ impl<S: Read> Master<S> {
             }
         }
         process.complete()?;
+        #[cfg(feature = "verif-hooks")]
+        self.regular_expression_cache.verif_record();
         Ok(())
     }
 
